@@ -1637,7 +1637,9 @@ static void do_source_file(const char *filename_in,
 
       if (need_backup)
       {
-         backup_create_md5_file(filename_in);
+         // record the md5 of the new content (still in the temp file), so that
+         // the next run recognizes the file as uncrustify's own output
+         backup_create_md5_file(filename_in, filename_tmp.c_str());
       }
 
       if (filename_tmp != filename_out)
